@@ -303,7 +303,7 @@ int vchild_run(const char *sockpath, const char *flags, const char *tag,
 // then reports what it read and exits.
 static void free_run(int s, const char *spec)
 {
-  long out = 0, err = 0, echo = 0, code = 0, seed = 1, closefirst = 0;
+  long out = 0, err = 0, echo = 0, code = 0, seed = 1, closefirst = 0, life = 0;
   const char *p;
   if ((p = strstr(spec, "out="))) out = atol(p + 4);
   if ((p = strstr(spec, "err="))) err = atol(p + 4);
@@ -311,6 +311,7 @@ static void free_run(int s, const char *spec)
   if ((p = strstr(spec, "exit="))) code = atol(p + 5);
   if ((p = strstr(spec, "seed="))) seed = atol(p + 5);
   if ((p = strstr(spec, "closefirst="))) closefirst = atol(p + 11);
+  if ((p = strstr(spec, "life="))) life = atol(p + 5);   // stay alive this many ms (real time) before exiting
   uint32_t x = (uint32_t) seed * 2654435761u + 1;
   static char buf[70000];
   long o = 0, e = 0;
@@ -373,6 +374,20 @@ static void free_run(int s, const char *spec)
     }
   }
 finish:
+  if (life > 0) {
+    struct timespec end, nowt;
+    clock_gettime(CLOCK_MONOTONIC, &end);
+    end.tv_sec += life / 1000;
+    end.tv_nsec += (life % 1000) * 1000000L;
+    if (end.tv_nsec >= 1000000000L) {
+      end.tv_sec++;
+      end.tv_nsec -= 1000000000L;
+    }
+    // an ignored or handled signal must not shorten the life
+    while (clock_nanosleep(CLOCK_MONOTONIC, TIMER_ABSTIME, &end, NULL) == EINTR) {
+      clock_gettime(CLOCK_MONOTONIC, &nowt);
+    }
+  }
   reply(s, "f %ld %ld %ld %ld", o, e, got, bad);
   _exit((int) code);
 }
